@@ -699,6 +699,8 @@ def composite_case(draw, tier):
         "pit": pit,
         "aggs_key": draw(_sf("aggs", "aggregations")),
         "hits_total": draw(_sf(None, None, 7)),
+        # the worker's one Query runner / extractor has served another composite aggregation (other name and nesting) before
+        "primed": _one_in(draw, 3),
     }
 
 
